@@ -127,6 +127,8 @@ func runC16(c *Ctx) {
 	c.Rule("C16.R1", "no Load;op;Store read-modify-write on an atomically shared word", 2)
 	c.Rule("C16.R2", "flag algebra: set=old|mask, clear=old&^mask, CAS on the loaded value with retry; Health()==0", 6)
 	c.Rule("C16.R3", "threshold automaton shape of the active health checker", 14)
+	c.Rule("C16.R4", "the health word of an address is the registry entry (get-or-create returns the stored value)", 1)
+	defer c16SharedWord(c)
 	c.NotDecided = append(c.NotDecided, "timing of checker goroutines and timers", "behaviour of concrete interleavings (only the structural impossibility of a lost update)")
 	c.Assumptions = append(c.Assumptions, "sync/atomic semantics; sessionChecker counters are confined to the checker's own goroutine (Start loop)")
 
@@ -557,4 +559,71 @@ func c16Automaton(c *Ctx) {
 	}
 	c.Check("C16.R3", fk+":failure-arm", fn.Pos(), respFail != nil && idGuard(respFail), "HandleFailure(FailureActive) only for the current id with !Healthy", "HandleFailure for a response is not guarded by resp.ID == currentID && !resp.Healthy (stale results must be ignored)")
 	c.Check("C16.R3", fk+":timeout-arm", fn.Pos(), toFail != nil && !idGuard(toFail), "timeout arm calls HandleFailure once", "timeout arm does not call HandleFailure exactly once")
+}
+
+// c16SharedWord (R4): all host objects of one address share one health word.
+// GetHealthFlagPointer is a get-or-create on a concurrent registry. Every pointer it returns must be the registry's
+// entry - the value returned by Load / LoadOrStore - never a word it allocated itself: when two hosts of a new address are
+// built at the same time, the loser of LoadOrStore would otherwise keep a private word, and a condition set through one
+// host object (active health check, outlier ejection) is invisible through the other.
+func c16SharedWord(c *Ctx) {
+	fn := c.F("pkg/upstream/cluster", "GetHealthFlagPointer")
+	if fn == nil {
+		c.Unresolved("C16.R4", "cluster.GetHealthFlagPointer")
+		return
+	}
+	n := 0
+	for _, rs := range returnSites(fn, 0) {
+		n++
+		v := rs.val
+		ok, why := false, "not obtained from the registry"
+		for d := 0; d < 6 && v != nil; d++ {
+			switch x := v.(type) {
+			case *ssa.Extract:
+				v = x.Tuple
+				continue
+			case *ssa.TypeAssert:
+				v = x.X
+				continue
+			case *ssa.Phi:
+				// every edge must come from the registry
+				all := len(x.Edges) > 0
+				for _, e := range x.Edges {
+					if !fromRegistry(e, 0) {
+						all = false
+					}
+				}
+				ok = all
+				v = nil
+				continue
+			case *ssa.Call:
+				if f := x.Common().StaticCallee(); f != nil && (strings.HasSuffix(f.String(), "(*sync.Map).LoadOrStore") || strings.HasSuffix(f.String(), "(*sync.Map).Load")) {
+					ok, why = true, "result of "+f.Name()
+				}
+			case *ssa.Alloc:
+				why = "a word allocated by this call is returned directly"
+			}
+			break
+		}
+		c.Check("C16.R4", fmt.Sprintf("%s:returns-registry-entry#%d", funcKey(fn), n), nearestPos(rs.at), ok, why, "GetHealthFlagPointer can return a health word that is not the registry's entry for the address ("+why+"): two host objects of one address created concurrently stop sharing their conditions, so a condition set through one is lost for the other")
+	}
+	if n < 1 {
+		c.Unresolved("C16.R4", "returns of GetHealthFlagPointer")
+	}
+}
+
+func fromRegistry(v ssa.Value, d int) bool {
+	if d > 6 {
+		return false
+	}
+	switch x := v.(type) {
+	case *ssa.Extract:
+		return fromRegistry(x.Tuple, d+1)
+	case *ssa.TypeAssert:
+		return fromRegistry(x.X, d+1)
+	case *ssa.Call:
+		f := x.Common().StaticCallee()
+		return f != nil && (strings.HasSuffix(f.String(), "(*sync.Map).LoadOrStore") || strings.HasSuffix(f.String(), "(*sync.Map).Load"))
+	}
+	return false
 }
